@@ -50,6 +50,7 @@ partial def walksOf : List Sexp → Option (List Walk)
     let ws ← walksOf rest
     pure (⟨s, res, l⟩ :: ws)
   | .atom "|" :: .atom "sexp=" :: _ => some []
+  | .atom "|" :: .atom "tree=" :: _ => some []
   | [] => some []
   | _ => none
 
@@ -105,6 +106,7 @@ def judge (items : List Sexp) : String :=
             | .atom "sexp=" => false
             | _ => true)).drop 1
           match sx with
+          | [] => "ok"      -- suite c11pg: no value, only the protocol is judged
           | [v] =>
             match (toVal v).run 1 with
             | .error e => "reject extractor-schema-mismatch " ++ e
@@ -135,6 +137,8 @@ def judge (items : List Sexp) : String :=
                     | none => "ok"
           | _ => "reject bad-output sexp"
   | [.atom "parse-error"] => "ok"
+  | [.atom "xlate-error"] => "ok"
+  | [.atom "walk0-cerr"] => "ok"      -- pgsql statement with a node type the pgsql cursor constructor does not handle
   | .atom "types" :: _ => "ok"
   | _ => "reject bad-output"
 
